@@ -778,6 +778,8 @@ def feature_specs(r, thorough):
                 names |= {"cfi-debug", "cline40"}
             if feat in ("long_args", "long_types", "callback"):
                 names |= {"cwide", "cwide-fnarrow", "fwide-cnarrow"}
+            if feat == "doxygen_text":
+                names |= {"fline60", "cline40", "literalinclude"}
             if feat in ("assumed_rank", "fmodule_mix"):
                 names |= {"cfi", "cfi-debug"}
             vs = [v for v in variants if v[0] in names]
@@ -791,7 +793,7 @@ def feature_specs(r, thorough):
             specs.append(dict(tag="fgen%d:%s+%s" % (n, feat, vn), config="fgen", yaml_text=lib["yaml_text"], yaml_name="flib.yaml",
                               options=["wrap_python=false", "wrap_lua=false"] + list(vopts), language=None, incdirs=[],
                               headers=hdrgen.headers_from_dict(lib["dict"]), defines=lib["defines"], gen=True,
-                              features=lib["features"], link=(thorough or n % 4 == 1 or feat in ("namespace_helpers", "class_result")), stub=hdrgen.stub_from_dict(lib["dict"])))
+                              features=lib["features"], link=(thorough or n % 4 == 1 or feat in ("namespace_helpers", "class_result", "class_multi_header")), stub=hdrgen.stub_from_dict(lib["dict"])))
     return specs, matrix
 
 
